@@ -1,0 +1,315 @@
+//go:build verif
+
+// Contracts for package rewriter, read by /verif's verification-condition generator.
+// This file contains comments only; it is compiled into nothing.
+// Spec functions (SpecTerm, STL, SHB, ...) come from /verif/spec/goast.smt2.
+
+package rewriter
+
+// ---------------------------------------------------------------- return.go: termination checker (C01, C11)
+// Only the sound direction is demanded: "reported terminating" implies "terminating by the Go
+// specification". The converse merely adds an unreachable `return Normal()`.
+
+//@ extern astutil.Unparen(e) (r)
+//@   ensures r == unparenE(e)
+
+//@ func (check *terminationChecker) isTerminating(s) (r)
+//@   reveal ast-readonly
+//@   requires ProperStmt(s)
+//@   loop #0 invariant AllCommOK(check.panicCallSites, as(s, SelectStmt).Body.List, _idx)
+//@   ensures[sound] r ==> SpecTerm(check.panicCallSites, s)
+
+//@ func (check *terminationChecker) isTerminatingList(list) (r)
+//@   reveal ast-readonly
+//@   requires StmtList(list)
+//@   loop #0 invariant -1 <= i && i < len(list) && STL(check.panicCallSites, list, len(list) - 1) == STL(check.panicCallSites, list, i)
+//@   ensures[sound] r ==> STL(check.panicCallSites, list, len(list) - 1)
+
+//@ func (check *terminationChecker) isTerminatingSwitch(body) (r)
+//@   reveal ast-readonly
+//@   requires body != nil && CaseList(body.List)
+//@   loop #0 invariant AllOK(check.panicCallSites, body.List, _idx) && (hasDefault == HasDef(body.List, _idx))
+//@   ensures[sound] r ==> AllOK(check.panicCallSites, body.List, len(body.List)) && HasDef(body.List, len(body.List))
+
+//@ func hasBreak(s) (r)
+//@   reveal ast-readonly
+//@   requires ProperStmt(s) || ClauseStmt(s)
+//@   panics-only-if isa(s, BranchStmt) && as(s, BranchStmt).Tok == token.BREAK && as(s, BranchStmt).Label != nil
+//@   ensures[complete] SHB(s) ==> r
+
+//@ func hasBreakList(list) (r)
+//@   reveal ast-readonly
+//@   requires StmtList(list)
+//@   loop #0 invariant !SHBp(list, _idx)
+//@   ensures[complete] SHBp(list, len(list)) ==> r
+
+// ---------------------------------------------------------------- yield_block.go: block bookkeeping (C01, C11, C12)
+// Callers see a block through these model fields; the methods are proved against the concrete
+// representation. (That distinct blocks have disjoint representations is assumption A-sep.)
+
+//@ model BLen(b *block) := len(b.block.List)
+//@ model BKLen(b *block) := len(b.kinds)
+//@ model BStmt(b *block, i int) := b.block.List[i]
+//@ model BKind(b *block, i int) := b.kinds[i]
+//@ model BFrozen(b *block) := b.frozen
+//@ model BChecked(b *block) := b.combineChecked
+//@ model BOwner(b *block) := b.kind
+//@ model BBlock(b *block) := b.block
+
+//@ pred KindOK(k int) := kindTrival <= k && k <= kindFor && k != kindDelay
+//@ pred BlockInv(b *block) := BBlock(b) != nil && 0 <= BLen(b) && BLen(b) == BKLen(b)
+//@        && (forall j: Int :: 0 <= j && j < BLen(b) ==> KindOK(BKind(b, j)) && !isnil(BStmt(b, j)))
+//@        && (forall j: Int :: 0 <= j && j < BLen(b) - 1 ==> BKind(b, j) < kindNormal)
+//@        && (BFrozen(b) ==> BLen(b) > 0 && BKind(b, BLen(b) - 1) >= kindNormal)
+//@ pred PushOK(b *block) := !BFrozen(b) && (BLen(b) == 0 || BKind(b, BLen(b) - 1) < kindNormal)
+
+//@ func mkBlock(kind) (b)
+//@   reveal BLen, BKLen, BStmt, BKind, BFrozen, BChecked, BOwner, BBlock
+//@   ensures[fresh] fresh(b) && fresh(BBlock(b))
+//@   ensures[init] BLen(b) == 0 && BKLen(b) == 0 && BOwner(b) == kind && BChecked(b) && !BFrozen(b)
+//@   ensures[inv] BlockInv(b) && PushOK(b)
+
+//@ func (b *block) len() (n)
+//@   requires BBlock(b) != nil
+//@   ensures[value] n == BLen(b)
+
+//@ func (b *block) markCombined()
+//@   ensures[set] BChecked(b)
+//@   modifies BChecked(b)
+
+//@ func (b *block) push(stmt, kind)
+//@   requires BlockInv(b) && BChecked(b) && PushOK(b)
+//@   requires KindOK(kind) && !isnil(stmt)
+//@   ensures[len] BLen(b) == old(BLen(b)) + 1 && BKLen(b) == old(BKLen(b)) + 1
+//@   ensures[last] BStmt(b, old(BLen(b))) == stmt && BKind(b, old(BLen(b))) == kind
+//@   ensures[prefix] forall j: Int :: 0 <= j && j < old(BLen(b)) ==> BStmt(b, j) == old(BStmt(b, j)) && BKind(b, j) == old(BKind(b, j))
+//@   ensures[flags] !BChecked(b) && !BFrozen(b) && BBlock(b) == old(BBlock(b)) && BOwner(b) == old(BOwner(b))
+//@   ensures[inv] BlockInv(b)
+//@   modifies BLen(b), BKLen(b), BStmt(b), BKind(b), BChecked(b)
+
+//@ func (b *block) pushReturn(call, whatToCall)
+//@   requires BlockInv(b) && BChecked(b) && PushOK(b)
+//@   requires kindNormal <= whatToCall && whatToCall <= kindFor && call != nil
+//@   ensures[len] BLen(b) == old(BLen(b)) + 1
+//@   ensures[last] isa(BStmt(b, old(BLen(b))), ReturnStmt) && BKind(b, old(BLen(b))) == whatToCall
+//@   ensures[prefix] forall j: Int :: 0 <= j && j < old(BLen(b)) ==> BStmt(b, j) == old(BStmt(b, j)) && BKind(b, j) == old(BKind(b, j))
+//@   ensures[flags] !BChecked(b) && BFrozen(b) && BBlock(b) == old(BBlock(b)) && BOwner(b) == old(BOwner(b))
+//@   ensures[inv] BlockInv(b)
+//@   modifies BLen(b), BKLen(b), BStmt(b), BKind(b), BChecked(b), BFrozen(b)
+
+//@ func (b *block) pop() (stmt, kind)
+//@   requires BlockInv(b) && BLen(b) > 0
+//@   ensures[len] BLen(b) == old(BLen(b)) - 1 && BKLen(b) == old(BKLen(b)) - 1
+//@   ensures[value] stmt == old(BStmt(b, BLen(b) - 1)) && kind == old(BKind(b, BLen(b) - 1))
+//@   ensures[prefix] forall j: Int :: 0 <= j && j < BLen(b) ==> BStmt(b, j) == old(BStmt(b, j)) && BKind(b, j) == old(BKind(b, j))
+//@   ensures[flags] !BFrozen(b) && BChecked(b) == old(BChecked(b)) && BBlock(b) == old(BBlock(b)) && BOwner(b) == old(BOwner(b))
+//@   ensures[inv] BlockInv(b) && PushOK(b)
+//@   modifies BLen(b), BKLen(b), BFrozen(b)
+
+//@ func (b *block) lastKind() (k)
+//@   requires BlockInv(b) && BLen(b) > 0
+//@   ensures[value] k == BKind(b, BLen(b) - 1)
+
+//@ func (b *block) lastStmt() (s)
+//@   requires BlockInv(b) && BLen(b) > 0
+//@   ensures[value] s == BStmt(b, BLen(b) - 1)
+
+//@ func (b *block) last() (s, k)
+//@   requires BlockInv(b) && BLen(b) > 0
+//@   ensures[value] s == BStmt(b, BLen(b) - 1) && k == BKind(b, BLen(b) - 1)
+
+//@ func (b *block) mayContainsYield() (r)
+//@   requires BlockInv(b)
+//@   loop #0 invariant -1 <= i && i < BLen(b) && (forall j: Int :: i < j && j < BLen(b) ==> BKind(b, j) != kindIf && BKind(b, j) != kindSwitch)
+//@   ensures[complete] (exists j: Int :: 0 <= j && j < BLen(b) && (BKind(b, j) == kindIf || BKind(b, j) == kindSwitch || BKind(b, j) == kindYield || BKind(b, j) == kindFor || BKind(b, j) == kindCombine)) ==> r
+//@   ensures[sound] r ==> (exists j: Int :: 0 <= j && j < BLen(b) && BKind(b, j) != kindTrival && BKind(b, j) != kindNormal)
+
+//@ func (b *block) mustNoYield() (r)
+//@   requires BlockInv(b)
+//@   ensures[complete] r ==> (forall j: Int :: 0 <= j && j < BLen(b) ==> BKind(b, j) == kindTrival || BKind(b, j) == kindNormal)
+//@   ensures[sound] !r ==> (exists j: Int :: 0 <= j && j < BLen(b) && BKind(b, j) != kindTrival && BKind(b, j) != kindNormal)
+
+//@ func (b *block) combineRequired() (r)
+//@   requires BlockInv(b)
+//@   ensures[value] r == (BLen(b) > 0 && BKind(b, BLen(b) - 1) != kindTrival)
+
+//@ type-contract func(ast.Stmt)bool (s) (r)
+//@   ensures r ==> SpecTermAny(s)
+
+//@ func (b *block) returnNormalRequired(isTerminating) (r)
+//@   requires BlockInv(b) && isTerminating != nil
+//@   requires BOwner(b) == kindDelay || BOwner(b) == kindFor || BOwner(b) == kindIf
+//@   ensures[reachable-end] (BLen(b) == 0 || ((BKind(b, BLen(b) - 1) == kindIf || BKind(b, BLen(b) - 1) == kindSwitch || BKind(b, BLen(b) - 1) == kindTrival) && !SpecTermAny(BStmt(b, BLen(b) - 1)))) ==> r
+//@   ensures[only-open] r ==> (BLen(b) == 0 || BKind(b, BLen(b) - 1) == kindIf || BKind(b, BLen(b) - 1) == kindSwitch || BKind(b, BLen(b) - 1) == kindTrival)
+
+//@ func assert(ok)
+//@   requires ok
+
+// ---------------------------------------------------------------- etc.go: stacks, predicates, AST factory (C11)
+
+//@ model SLen(s *stack) := len(deref(s))
+//@ model STop(s *stack) := deref(s)[len(deref(s)) - 1]
+
+//@ func mkStack(init) (s)
+//@   reveal SLen, STop
+//@   ensures[init] fresh(s) && SLen(s) == 1 && STop(s) == init
+
+//@ func (s *stack[T]) push(v)
+//@   requires SLen(s) >= 0
+//@   ensures[pushed] SLen(s) == old(SLen(s)) + 1 && STop(s) == v
+//@   modifies cell(s)
+
+//@ func (s *stack[T]) top() (v)
+//@   requires SLen(s) > 0
+//@   ensures[value] v == STop(s)
+
+//@ func (s *stack[T]) pop() (v)
+//@   requires SLen(s) > 0
+//@   ensures[popped] v == old(STop(s)) && SLen(s) == old(SLen(s)) - 1
+//@   modifies cell(s)
+
+//@ func (s *stack[T]) len() (n)
+//@   ensures[value] n == SLen(s)
+
+//@ func isNil(n) (r)
+//@   trusted        -- uses reflect; holds for every pointer-shaped dynamic type (all ast nodes)
+//@   ensures r == isnil(n)
+
+//@ func isUnderline(expr) (r)
+//@   requires isa(expr, Ident) ==> !isnil(expr)
+//@   ensures[value] r == (isa(expr, Ident) && !isnil(expr) && as(expr, Ident).Name == "_")
+
+//@ func isDefineStmt(stmt) (r)
+//@   requires isa(stmt, AssignStmt) ==> !isnil(stmt)
+//@   ensures[value] r == (isa(stmt, AssignStmt) && !isnil(stmt) && as(stmt, AssignStmt).Tok == token.DEFINE)
+
+//@ pred RefersTo(e ast.Expr, name string) := !isnil(e) && ((isa(e, Ident) && same(as(e, Ident).Name, name))
+//@        || (isa(e, SelectorExpr) && as(e, SelectorExpr).Sel != nil && same(as(e, SelectorExpr).Sel.Name, name)))
+
+//@ func (f factor) Ident(name) (r)
+//@   ensures[node] fresh(r) && same(r.Name, name)
+//@ func (f factor) Index(x, idx) (r)
+//@   ensures[node] fresh(r) && r.X == x && r.Index == idx
+//@ func (f factor) Select(x, sel) (r)
+//@   ensures[node] fresh(r) && isa(r, SelectorExpr) && as(r, SelectorExpr).X == x && as(r, SelectorExpr).Sel != nil && same(as(r, SelectorExpr).Sel.Name, sel)
+//@ func (f factor) PkgSelect(pkgName, name) (r)
+//@   requires !(pkgName == "_")
+//@   ensures[node] fresh(r) && RefersTo(r, name)
+//@ func (f factor) TypeField(typ) (r)
+//@   ensures[node] fresh(r) && r.Type == typ
+//@ func (f factor) Fields(xs) (r)
+//@   ensures[node] fresh(r) && same(r.List, xs)
+//@ func (f factor) Call(fun, args) (r)
+//@   ensures[node] fresh(r) && r.Fun == fun && same(r.Args, args)
+//@ func (f factor) Assign(tok, lhs, rhs) (r)
+//@   ensures[node] fresh(r) && r.Tok == tok && len(r.Lhs) == 1 && r.Lhs[0] == lhs && len(r.Rhs) == 1 && r.Rhs[0] == rhs
+//@ func (f factor) Assign2(tok, lhs1, lhs2, rhs1, rhs2) (r)
+//@   ensures[node] fresh(r) && r.Tok == tok && len(r.Lhs) == 2 && r.Lhs[0] == lhs1 && r.Lhs[1] == lhs2
+//@        && len(r.Rhs) == 2 && r.Rhs[0] == rhs1 && r.Rhs[1] == rhs2
+//@ func (f factor) Define(lhs, rhs) (r)
+//@   ensures[node] fresh(r) && r.Tok == token.DEFINE && len(r.Lhs) == 1 && r.Lhs[0] == lhs && len(r.Rhs) == 1 && r.Rhs[0] == rhs
+//@ func (f factor) IgnoreExpr(expr) (r)
+//@   ensures[node] fresh(r) && r.Tok == token.ASSIGN && len(r.Lhs) == 1 && isa(r.Lhs[0], Ident) && len(r.Rhs) == 1 && r.Rhs[0] == expr
+//@ func (f factor) Return(xs) (r)
+//@   ensures[node] fresh(r) && same(r.Results, xs) && r.Return == 0
+//@ func (f factor) IfStmt(init, cond, body, els) (r)
+//@   ensures[node] fresh(r) && r.Init == init && r.Cond == cond && r.Body == body && r.Else == els
+//@ func (f factor) Case(list, body) (r)
+//@   ensures[node] fresh(r) && same(r.List, list) && same(r.Body, body)
+//@ func (f factor) SwitchStmt(init, tag, body) (r)
+//@   ensures[node] fresh(r) && r.Init == init && r.Tag == tag && r.Body == body
+//@ func (f factor) TypeSwitchStmt(init, assign, body) (r)
+//@   ensures[node] fresh(r) && r.Init == init && r.Assign == assign && r.Body == body
+//@ func (f factor) Switch(init, x, body) (r)
+//@   requires isnil(x) ==> same(x, nil)         -- a typed-nil node is neither an Expr nor usable as a tag
+//@   requires same(x, nil) || implements(x, Expr) || implements(x, Stmt)
+//@   ensures[node] fresh(r) && (isa(r, SwitchStmt) || isa(r, TypeSwitchStmt))
+//@   ensures[switch] isa(r, SwitchStmt) ==> as(r, SwitchStmt).Init == init && as(r, SwitchStmt).Body == body && as(r, SwitchStmt).Tag == x
+//@   ensures[typeswitch] isa(r, TypeSwitchStmt) ==> as(r, TypeSwitchStmt).Init == init && as(r, TypeSwitchStmt).Body == body && as(r, TypeSwitchStmt).Assign == x
+//@ func (f factor) ForStmt(init, cond, post, body) (r)
+//@   ensures[node] fresh(r) && r.Init == init && r.Cond == cond && r.Post == post && r.Body == body
+//@ func (f factor) Block(xs) (r)
+//@   ensures[node] fresh(r) && same(r.List, xs)
+//@ func (f factor) Block1(x, xs) (r)
+//@   ensures[node] fresh(r)
+//@   ensures[nil-head] isnil(x) ==> same(r.List, xs)
+//@   ensures[head] !isnil(x) ==> len(r.List) == len(xs) + 1 && r.List[0] == x
+//@ func (f factor) Stmt(n) (r)
+//@   requires !isnil(n) && (implements(n, Expr) || implements(n, Stmt))
+//@   ensures[expr] implements(n, Expr) ==> fresh(r) && isa(r, ExprStmt) && as(r, ExprStmt).X == n
+//@   ensures[stmt] !implements(n, Expr) ==> r == n
+
+// ---------------------------------------------------------------- yield_ast.go: term builders (C02, C05, C07, C11, C14)
+// IsSeqCall(c, name): c is a call of seq.<name>[T] - the only form in which the rewriter emits combinators.
+
+//@ pred IsSeqFun(e ast.Expr, name string) := isa(e, IndexExpr) && !isnil(e) && RefersTo(as(e, IndexExpr).X, name)
+//@ pred IsSeqCall(c *ast.CallExpr, name string) := c != nil && IsSeqFun(c.Fun, name)
+//@ pred IsThunkOf(e ast.Expr, body *ast.BlockStmt) := isa(e, FuncLit) && !isnil(e) && as(e, FuncLit).Body == body
+//@ pred IsDelayOf(e ast.Expr, body *ast.BlockStmt) := isa(e, CallExpr) && !isnil(e) && IsSeqCall(as(e, CallExpr), cstDelay)
+//@        && len(as(e, CallExpr).Args) == 1 && IsThunkOf(as(e, CallExpr).Args[0], body)
+//@ pred YAOK(y *yieldAst) := !(y.seqImportedName == "_")
+
+//@ func mkYieldAst(seqName, retParamTy) (a)
+//@   requires !(seqName == "_")
+//@   ensures[node] fresh(a) && same(a.seqImportedName, seqName) && a.funRetParamTy == retParamTy
+//@   ensures[normal] IsSeqCall(a.callNormal, cstNormal) && len(a.callNormal.Args) == 0 && fresh(a.callNormal)
+
+//@ func (y *yieldAst) SeqSelect(name) (r)
+//@   requires YAOK(y)
+//@   ensures[node] fresh(r) && RefersTo(r, name)
+//@ func (y *yieldAst) SeqIndex(name) (r)
+//@   requires YAOK(y)
+//@   ensures[node] fresh(r) && RefersTo(r.X, name) && r.Index == y.funRetParamTy
+//@ func (y *yieldAst) SeqFun(name) (r)
+//@   requires YAOK(y)
+//@   ensures[node] fresh(r) && RefersTo(r.X, name) && r.Index == y.funRetParamTy
+//@ func (y *yieldAst) SeqType(name) (r)
+//@   requires YAOK(y)
+//@   ensures[node] fresh(r) && RefersTo(r.X, name) && r.Index == y.funRetParamTy
+//@ func (y *yieldAst) SeqCall(name, args) (r)
+//@   requires YAOK(y)
+//@   ensures[node] fresh(r) && IsSeqCall(r, name) && same(r.Args, args)
+//@ func (y *yieldAst) Thunk(body) (r)
+//@   requires YAOK(y)
+//@   ensures[node] fresh(r) && r.Body == body && r.Type != nil && r.Type.Params != nil && len(r.Type.Params.List) == 0
+//@        && r.Type.Results != nil && len(r.Type.Results.List) == 1
+//@ func (y *yieldAst) CallStart(body) (r)
+//@   requires YAOK(y)
+//@   ensures[node] fresh(r) && IsSeqCall(r, cstStart) && len(r.Args) == 1
+//@   ensures[arg] IsDelayOf(r.Args[0], body)
+//@ func (y *yieldAst) CallNormal() (r)
+//@   requires YAOK(y)
+//@   ensures[node] fresh(r) && IsSeqCall(r, cstNormal) && len(r.Args) == 0
+//@ func (y *yieldAst) CallReturn() (r)
+//@   requires YAOK(y)
+//@   ensures[node] fresh(r) && IsSeqCall(r, cstReturn) && len(r.Args) == 0
+//@ func (y *yieldAst) CallBreak() (r)
+//@   requires YAOK(y)
+//@   ensures[node] fresh(r) && IsSeqCall(r, cstBreak) && len(r.Args) == 0
+//@ func (y *yieldAst) CallContinue() (r)
+//@   requires YAOK(y)
+//@   ensures[node] fresh(r) && IsSeqCall(r, cstContinue) && len(r.Args) == 0
+//@ func (y *yieldAst) CallDelay(body) (r)
+//@   requires YAOK(y)
+//@   ensures[node] fresh(r) && IsSeqCall(r, cstDelay) && len(r.Args) == 1 && IsThunkOf(r.Args[0], body)
+//@ func (y *yieldAst) CallBind(v, body) (r)
+//@   requires YAOK(y)
+//@   ensures[node] fresh(r) && IsSeqCall(r, cstBind) && len(r.Args) == 2 && r.Args[0] == v && IsThunkOf(r.Args[1], body)
+//@ func (y *yieldAst) CallCombine(s1, s2) (r)
+//@   requires YAOK(y)
+//@   ensures[node] fresh(r) && IsSeqCall(r, cstCombine) && len(r.Args) == 2 && IsDelayOf(r.Args[0], s1) && IsDelayOf(r.Args[1], s2)
+//@ func (y *yieldAst) CallFor(cond, post, body) (r)
+//@   requires YAOK(y) && !isnil(body)
+//@   ensures[fresh] fresh(r)
+//@   ensures[loop] isnil(cond) && isnil(post) ==> IsSeqCall(r, cstLoop) && len(r.Args) == 1 && r.Args[0] == body
+//@   ensures[while] !isnil(cond) && isnil(post) ==> IsSeqCall(r, cstWhile) && len(r.Args) == 2 && r.Args[0] == cond && r.Args[1] == body
+//@   ensures[for] !isnil(post) ==> IsSeqCall(r, cstFor) && len(r.Args) == 3 && r.Args[1] == post && r.Args[2] == body
+//@        && (!isnil(cond) ==> r.Args[0] == cond) && (isnil(cond) ==> isa(r.Args[0], Ident) && same(as(r.Args[0], Ident).Name, "nil"))
+//@   ensures[wf-out] forall j: Int :: 0 <= j && j < len(r.Args) ==> !isnil(r.Args[j])
+//@ func (y *yieldAst) ForCondFun(cond) (r)
+//@   ensures[nil] isnil(cond) ==> r == nil
+//@   ensures[fun] !isnil(cond) ==> fresh(r) && r.Body != nil && len(r.Body.List) == 1 && isa(r.Body.List[0], ReturnStmt)
+//@        && len(as(r.Body.List[0], ReturnStmt).Results) == 1 && as(r.Body.List[0], ReturnStmt).Results[0] == cond
+//@ func (y *yieldAst) ForPostFun(post) (r)
+//@   ensures[nil] isnil(post) ==> r == nil
+//@   ensures[fun] !isnil(post) ==> fresh(r) && r.Body != nil && len(r.Body.List) == 1 && r.Body.List[0] == post
